@@ -8,6 +8,8 @@ import (
 	"encoding/binary"
 	"fmt"
 	"math"
+	"sync"
+	"sync/atomic"
 	"time"
 
 	"github.com/wollac/iota-crypto-demo/pkg/pow"
@@ -20,7 +22,7 @@ import (
 func init() {
 	fw.Register(&fw.Prop{
 		ID: "C11",
-		Rule: "mine: (data of length 0..300, target, workers 1..16) with targets 3^k/len for k=0..8 exactly and +-1, +-2 ulp, 3^k/len*(1+-1e-9), targets at or below 1/len (1/len, 0.9/len, 1/(3 len), 1e-9, smallest subnormal, 0, -0, -1) and random targets up to 3^9/len; every nonce returned without error must satisfy Score(data||LE64(nonce)) >= target under the package's Score and under the model score; the process must survive (a worker-goroutine panic kills the child process and the case in flight is the witness). score: Score(msg) for messages of length 8..400 equals 3^z/len with z from the model (BLAKE2b-256, own b1t6, own Curl-P-81). check: the bit-plane lane test (hook) on crafted 64-lane states with exactly n-1, n, n+1 trailing zero trits at lane 0, 63 and random lanes for n in 0..243 returns the first qualifying lane or 64. " +
+		Rule: "mine: (data of length 0..300, target, workers 1..16) with targets 3^k/len for k=0..8 exactly and +-1, +-2 ulp, 3^k/len*(1+-1e-9), targets at or below 1/len (1/len, 0.9/len, 1/(3 len), 1e-9, smallest subnormal, 0, -0, -1) and random targets up to 3^9/len; every nonce returned without error must satisfy Score(data||LE64(nonce)) >= target under the package's Score and under the model score; the process must survive (a worker-goroutine panic kills the child process and the case in flight is the witness). shared: several Mine calls with different targets run concurrently on ONE *Worker; every returned nonce must meet its own target. score: Score(msg) for messages of length 8..400 equals 3^z/len with z from the model (BLAKE2b-256, own b1t6, own Curl-P-81). check: the bit-plane lane test (hook) on crafted 64-lane states with exactly n-1, n, n+1 trailing zero trits at lane 0, 63 and random lanes for n in 0..243 returns the first qualifying lane or 64. " +
 			"Non-trivial: mine cases with a target within 2 ulp of a 3^k/len boundary or with len*target < 1; all check cases; score cases.",
 		Assumptions: []string{"BLAKE2b-256 (x/crypto)", "float64 arithmetic of the Go runtime (3^z exact for z <= 33)", "the Curl-P-81 / b1t6 model in harness/oracle/curlp (self-tested)"},
 		SelfTest:    curlp.SelfTest,
@@ -34,10 +36,12 @@ func init() {
 				return map[string]interface{}{"data": fw.Hex(p[0]), "target": fmt.Sprintf("%g (bits %016x)", t, fw.GetU64(p[1])), "target_times_len": t * float64(len(p[0])+8), "workers": p[2][0]}
 			case "score":
 				return map[string]interface{}{"msg": fw.Hex(p[0])}
+			case "shared":
+				return map[string]interface{}{"seed": fw.GetU64(p[0]), "scenario": "two demanding and one looping easy Mine call run concurrently on one *Worker"}
 			}
 			return map[string]interface{}{"seed": fw.GetU64(p[0]), "n": fw.GetU32(p[1])}
 		},
-		Required:      []string{"mine returned", "mine boundary target", "mine target below 1/len", "score ok", "check ok", "nonce zeros == required", "nonce zeros > required"},
+		Required:      []string{"mine returned", "mine boundary target", "mine target below 1/len", "score ok", "shared-worker executions", "check ok", "nonce zeros == required", "nonce zeros > required"},
 		WatchdogQuick: 900,
 	})
 }
@@ -62,6 +66,8 @@ func modelScore(z, n int) (float64, bool) {
 func judge(class string, key []byte, o *fw.Obs) {
 	p := fw.Unpack(key)
 	switch class {
+	case "shared":
+		judgeShared(fw.GetU64(p[0]), o)
 	case "score":
 		msg := p[0]
 		o.Nontrivial()
@@ -224,6 +230,82 @@ func judge(class string, key []byte, o *fw.Obs) {
 	}
 }
 
+// judgeShared: several goroutines mine concurrently on ONE *Worker (it only holds the worker count,
+// so sharing it is ordinary use) with different data and targets; every returned nonce must be sound.
+func judgeShared(seed uint64, o *fw.Obs) {
+	o.Nontrivial()
+	r := fw.SubRng(int64(seed), "c11-shared")
+	w := pow.New(1 + r.Intn(4))
+	type job struct {
+		data []byte
+		t    float64
+	}
+	mk := func(k int) job {
+		d := make([]byte, r.Intn(60))
+		r.Read(d)
+		b, _ := modelScore(k, len(d)+8)
+		return job{d, b}
+	}
+	hard := []job{mk(6 + r.Intn(2)), mk(5 + r.Intn(3))}
+	easy := mk(r.Intn(3))
+	type outcome struct {
+		j     job
+		nonce uint64
+		err   error
+		pan   interface{}
+	}
+	ctx, cancel := context.WithTimeout(context.Background(), 300*time.Second)
+	defer cancel()
+	results := make(chan outcome, 4096)
+	run := func(j job) outcome {
+		oc := outcome{j: j}
+		func() {
+			defer func() { oc.pan = recover() }()
+			oc.nonce, oc.err = w.Mine(ctx, j.data, j.t)
+		}()
+		return oc
+	}
+	var wg sync.WaitGroup
+	var stop int32
+	for _, j := range hard {
+		wg.Add(1)
+		go func(j job) { defer wg.Done(); results <- run(j) }(j)
+	}
+	done := make(chan struct{})
+	go func() {
+		defer close(done)
+		for n := 0; atomic.LoadInt32(&stop) == 0 && n < 4000; n++ {
+			results <- run(easy)
+		}
+	}()
+	wg.Wait()
+	atomic.StoreInt32(&stop, 1)
+	<-done
+	close(results)
+	for oc := range results {
+		if oc.pan != nil {
+			o.Fail("panic", "concurrent Mine on a shared Worker panicked: %v", oc.pan)
+			return
+		}
+		if oc.err != nil {
+			if ctx.Err() != nil {
+				o.Inconclusive("concurrent Mine calls did not finish within 300 s")
+			} else {
+				o.Fail("error", "concurrent Mine on a shared Worker returned %v", oc.err)
+			}
+			return
+		}
+		msg := append(append([]byte(nil), oc.j.data...), make([]byte, 8)...)
+		binary.LittleEndian.PutUint64(msg[len(oc.j.data):], oc.nonce)
+		if ms, _ := modelScore(modelZeros(msg), len(msg)); !(ms >= oc.j.t) {
+			o.Fail("score", "with several Mine calls running concurrently on one Worker, Mine(len(data)=%d, target=%g) returned nonce %d with score %g below the target", len(oc.j.data), oc.j.t, oc.nonce, ms)
+			return
+		}
+		o.Count("shared-worker results checked")
+	}
+	o.Count("shared-worker executions")
+}
+
 func min(a, b int) int {
 	if a < b {
 		return a
@@ -278,6 +360,9 @@ func gen(g *fw.Gen) {
 			}
 		}
 		emitMine(g.Bytes(l), t, 1+g.Rng.Intn(16))
+	}
+	for n := g.ShareOf(64, 3000); n > 0; n-- {
+		g.Emit("shared", fw.Pack(fw.U64(g.Rng.Uint64())))
 	}
 	for n := g.ShareOf(40000, 2000000); n > 0; n-- {
 		g.Emit("score", fw.Pack(g.Bytes(8+g.Rng.Intn(393))))
